@@ -579,3 +579,29 @@ def limit_edge_streams(rng, lim):
             cuts = sorted({c for c in (mark - 1, mark, mark + 1, mark + 2, len(pre), len(pre) + 1) if 0 < c < len(s)})
             out.append((s, pos, delta, cuts))
     return out
+
+
+
+SYSTEMATIC_BASES = [
+    b"POST /p HTTP/1.1\r\nHost: h\r\nTransfer-Encoding: chunked\r\n\r\n5;x=1\r\nhello\r\nA\r\n0123456789\r\n0\r\nX-T: t\r\n\r\n",
+    b"GET /a?b=c HTTP/1.1\r\nHost: h\r\nAccept: */*\r\nConnection: keep-alive\r\n\r\nPUT /q HTTP/1.1\r\nHost: h\r\nContent-Length: 4\r\n\r\nbodyGET / HTTP/1.1\r\nHost: h\r\n\r\n",
+    b"OPTIONS * HTTP/1.0\r\nConnection: keep-alive\r\nContent-Length: 0\r\n\r\nGET /u HTTP/1.1\r\nHost: h\r\nUpgrade: websocket\r\nConnection: Upgrade\r\n\r\nrest",
+]
+INSERT_BYTES = [0x20, 0x09, 0x0A, 0x0D, 0x0B, 0x0C, 0x00, 0x7F, 0x80, 0x3A, 0x3B, 0x2C]
+
+
+def systematic_mutants(base: bytes, rng=None, fraction=1.0):
+    """Every single-byte insertion of a whitespace/control/separator byte at every position, every
+    single-byte deletion, and every duplication of a line, of a base stream."""
+    out = []
+    for i in range(len(base) + 1):
+        for b in INSERT_BYTES:
+            if fraction >= 1.0 or rng.random() < fraction:
+                out.append(base[:i] + bytes([b]) + base[i:])
+    for i in range(len(base)):
+        if fraction >= 1.0 or rng.random() < fraction:
+            out.append(base[:i] + base[i + 1:])
+    lines = base.split(b"\r\n")
+    for i in range(len(lines)):
+        out.append(b"\r\n".join(lines[: i + 1] + lines[i:]))
+    return out
